@@ -48,8 +48,8 @@ def gen_op(rng, state):
     if not slots:
         return _gen_construct(rng)
     op = rng.choices(
-        ["construct", "set_mask", "clear", "low", "high", "sub", "json", "reimport", "strip", "dup", "avg", "export", "refused_ctor", "refused_mask"],
-        [2.5, 3, 1, 1.5, 1.5, 1.2, 2, 2, 2, 1.2, 1, 1, 1.2, 0.8],
+        ["construct", "set_mask", "clear", "low", "high", "sub", "json", "reimport", "strip", "dup", "avg", "export", "refused_ctor", "refused_mask", "v1", "read"],
+        [2.5, 3, 1, 1.5, 1.5, 1.2, 2, 2, 2, 1.2, 1, 1, 1.2, 0.8, 1.2, 1.0],
     )[0]
     k = rng.randrange(len(slots))
     model = slots[k]["model"]
@@ -84,6 +84,11 @@ def gen_op(rng, state):
         return {"op": "average", "slots": [k, rng.randrange(len(slots))]}
     if op == "export":
         return {"op": "export", "slot": k}
+    if op == "v1":
+        return {"op": "import_v1", "slot": k, "times": rng.randint(1, 3), "order": rng.choice(["asc", "desc"]), "via_json": rng.random() < 0.5,
+                "drop": [x for x in ("mask", "path", "label", "uuid") if rng.random() < 0.3]}
+    if op == "read":
+        return {"op": "read_views", "slot": k}
     if op == "refused_ctor":
         return {"op": "refused_construct", "kind": rng.choice(["dup_freq", "unequal", "empty", "mask_key_str", "mask_val_int", "mask_not_dict"])}
     return {"op": "refused_set_mask", "slot": k, "kind": rng.choice(["key_str", "val_int", "not_dict"])}
@@ -307,6 +312,39 @@ def apply(state, rec):
             if avg is not None:
                 model = [[fa[i], complex(np.mean(np.array([a["model"][i][1], b["model"][i][1]]), axis=0)), False] for i in range(len(fa))]
                 _add_slot(state, avg, model)
+        elif op == "import_v1":
+            # restart through the older (version 1) dictionary layout, possibly in ascending order,
+            # importing the very same dictionary object several times
+            stats["restarts"]["import_version_1_dict"] += 1
+            pts = sorted(s["model"], key=lambda t: -t[0])
+            if rec["order"] == "asc":
+                pts = pts[::-1]
+            d = {"version": 1, "path": "", "label": "v1", "uuid": "",
+                 "frequency": [t[0] for t in pts], "real": [t[1].real for t in pts], "imaginary": [t[1].imag for t in pts],
+                 "mask": {i: bool(t[2]) for i, t in enumerate(pts)}}
+            if rec.get("via_json"):
+                d = json.loads(json.dumps(d))
+            for k in rec.get("drop", []):
+                d.pop(k, None)
+            model = [list(t) for t in s["model"]]
+            if "mask" in rec.get("drop", []):
+                for t in model:
+                    t[2] = False
+            last = None
+            for k in range(rec["times"]):
+                try:
+                    last = DataSet.from_dict(d)
+                except Exception as e:
+                    return _viol("import-failed", rec, f"import #{k + 1} of one version-1 dictionary raised {type(e).__name__}: {e}", exception=type(e).__name__)
+                r = _check_slot(last, model)
+                if r:
+                    return _viol(r[0], rec, f"import #{k + 1} of one version-1 dictionary: {r[1]}")
+            _add_slot(state, last, model)
+        elif op == "read_views":
+            # a pure read of every view (fills whatever caches the implementation keeps)
+            _views(s["ds"])
+            s["ds"].get_nyquist_data()
+            s["ds"].get_bode_data()
         elif op == "export":
             stats["restarts"]["export_held"] += 1
             d = s["ds"].to_dict()
